@@ -23,8 +23,12 @@ coq_makefile -f _CoqProject -o Makefile >/dev/null || exit 2
 # each coqc under its own time/memory limit (a runaway proof search must not eat the machine)
 export COQC="$ROOT/tools/coqc_limited.sh"
 timeout 3000 make -k -j"${VERIF_JOBS:-12}" COQC="$COQC" 2>&1 | grep -v '^COQDEP\|^COQC\|^CAMLOPT' | tail -40
-if ! timeout 600 make -q COQC="$COQC" >/dev/null 2>&1; then
-  echo "WARNING: some Coq files did not build (see above); the checks of the properties that need them will report it" >&2
+missing=""
+for v in $(grep '\.v$' _CoqProject); do
+  [ -f "${v}o" ] && [ ! "$v" -nt "${v}o" ] || missing="$missing $v"
+done
+if [ -n "$missing" ]; then
+  echo "WARNING: these Coq files did not build:$missing -- the checks of the properties that need them will report it" >&2
 fi
 if [ ! -f Extract/Extract.vo ]; then
   echo "BUILD FAILURE: models did not extract" >&2
